@@ -1,7 +1,7 @@
 package config
 
-// Native (coverage-guided) fuzz target for the totality clause of C02:
-// Parse never panics on any input. Used by the thorough tier only; the saved
+// Native (coverage-guided) fuzz target for C02 on arbitrary bytes: Parse never
+// panics, and whatever it accepts satisfies every documented range (c02Accepted). Used by the thorough tier only; the saved
 // crasher file is the replay unit (./check C02 --replay <file>).
 
 import (
@@ -39,6 +39,12 @@ func FuzzVerif_C02(f *testing.F) {
 		if bytes.Contains(data, []byte("address")) {
 			return
 		}
-		_, _ = Parse(bytes.NewReader(data), c02Epoch)
+		c, err := Parse(bytes.NewReader(data), c02Epoch)
+		if err != nil {
+			return
+		}
+		if err := c02Accepted(c); err != nil {
+			t.Fatalf("accepted configuration violates a documented constraint: %v", err)
+		}
 	})
 }
